@@ -67,10 +67,22 @@ class SimFS:
             return path
         return os.path.join(self._dir, path.strip("/").replace("/", "_"))
 
-    def write(self, path, text):
+    def write(self, path, text, keep_mtime=False):
+        """Store ``text``; with ``keep_mtime`` the time stamps of the file being replaced are kept (a file
+        system with coarse time stamps, or a copy that preserves them)."""
+        real = self.real(path)
+        old = None
+        if keep_mtime:
+            try:
+                st = os.stat(real)
+                old = (st.st_atime_ns, st.st_mtime_ns)
+            except OSError:
+                old = None
         self.files[path] = text
-        with builtins.open(self.real(path), "w") as fh:
+        with builtins.open(real, "w") as fh:
             fh.write(text)
+        if old is not None:
+            os.utime(real, ns=old)
 
     def open(self, path, mode="r", *args, **kwargs):
         self.opens += 1
